@@ -27,7 +27,7 @@
 EXTENDS Integers, Sequences, FiniteSets, TLC
 
 CONSTANTS
-  Cfgs,        \* set of server configurations [dk, maxReqs, rmu, viaServe, keepHij, perIP, busy]
+  Cfgs,        \* set of server configurations [dk, maxReqs, rmu, viaServe, keepHij, perIP, busy, tls]
   Reqs,        \* menu of request records the client may send
   MaxBatches,  \* number of client writes
   MaxPerBatch, \* pipelined requests per write
